@@ -101,8 +101,10 @@ class Validation:
         """
         Set _intersect_nodes and _endpoint_nodes attributes.
         """
+        # Nodes are linked to the traces by position. Any index (labels) is
+        # allowed for the validated traces.
         self._intersect_nodes, self._endpoint_nodes = determine_general_nodes(
-            self.traces
+            self.traces.reset_index(drop=True)
         )
 
     @property
